@@ -188,10 +188,13 @@ def run_case(case, ctx, st):
         """score(X) given single-precision data: scikit-learn evaluates the kernel / metric in single precision, so the
         affinity (hence the score) carries float32 round-off - relative 1e-5 of the affinity's magnitude, amplified by the
         square root for a near-zero MMD.  Zero for every other input form."""
-        if form != "float32" or A_ is None:
+        if form not in ("float32", "fortran", "strided") or A_ is None:
             return 0.0
+        # Fortran-ordered / strided data: BLAS sums in another order, and scikit-learn's euclidean distances (computed as
+        # sqrt(x.x - 2 x.y + y.y)) carry that round-off amplified by cancellation - 1e-7 of the affinity's magnitude
+        rel_ = 1e-5 if form == "float32" else 1e-7
         A_ = np.asarray(A_, dtype=float)
-        t = 1e-5 * max(1.0, abs(val_), float(np.max(np.abs(A_))) if A_.size else 0.0)
+        t = rel_ * max(1.0, abs(val_), float(np.max(np.abs(A_))) if A_.size else 0.0)
         if dist_ == "mmd":
             from . import _gem
 
@@ -199,7 +202,7 @@ def run_case(case, ctx, st):
                 pass
             g32 = _G32()
             g32.ovo = ovo_
-            t += _gem.mmd_tolerance(g32, P_, A_, rel=1e-5)
+            t += _gem.mmd_tolerance(g32, P_, A_, rel=rel_)
         return t
 
     try:
@@ -240,7 +243,7 @@ def run_case(case, ctx, st):
             need(isinstance(sc, float), "score-type", type(sc).__name__)
             # score == documented GEMINI of predict_proba(X) with the affinity the parameters describe
             dist, ovo, spec = gen.expected_objective(name, params)
-            A = gen.expected_affinity(spec, X, y)
+            A = gen.expected_affinity(spec, Xin if form in ("fortran", "strided") else X, y)   # same memory layout as the model saw
             # the clipping bound is part of the GEMINI object the parameters describe
             eps = float(params["gemini"].get("epsilon", 1e-12)) if isinstance(params.get("gemini"), dict) else 1e-12
             if np.all(np.isfinite(P)) and P.shape == (n, K):
